@@ -4,10 +4,11 @@ import Log4rsModel.Roller.LemmasName
 C07 — Fixed-window roller keeps the newest `count` files at base..base+count-1.
 Only property theorems and non-vacuity examples; helpers are in Roller/Lemmas*.lean.
 
-All theorems are about `rollU32`, the model of `FixedWindowRoller::roll` with the `u32` arithmetic
-explicit. The guard `r.base + r.count < 2^32` is a hypothesis wherever the roll has to succeed;
-`C07_overflow_panics` shows what happens outside it (defect F11; note that the guard is `<`, not
-`≤`: the code forms `base + count` before subtracting 1).
+All theorems are about `rollU32`, the model of `FixedWindowRoller::roll` (after the fix e76ee7b)
+with the `u32` arithmetic explicit. The guard `r.base + r.count ≤ 2^32` says that the window's
+last index is a `u32`; it includes the boundary `base + count = 2^32` (e.g. base 2^32-1, count 1).
+Outside the guard the builder returns Err (`C07_unrepresentable_rejected`) and no roll happens.
+`C07_overflow_panics_unfixed` documents the behaviour before the fix (defect F11).
 Hypotheses on names: `NamesInj` (discharged by `C07_name_injective`), `FileApart`.
 -/
 namespace Log4rs.Roller
@@ -32,7 +33,7 @@ theorem C07_name_injective_of_injective (expand : List Char → List Char)
 /-- Frame: every path that is neither the rolled file nor `name i` for `i ∈ [b, b+c)` is left
 untouched — for every fault oracle (successful roll or not), with no hypothesis on the names. -/
 theorem C07_frame (r : RollerCfg) (file : Path) (fault : Nat → Bool) (d : Disk) (q : Path)
-    (hg : r.base + r.count < U32_MOD) (h1 : q ≠ file)
+    (hg : r.base + r.count ≤ U32_MOD) (h1 : q ≠ file)
     (h2 : ∀ i, r.base ≤ i → i < r.base + r.count → q ≠ r.nameOf i) :
     (rollU32 r file fault d).2.get? q = d.get? q := by
   rw [rollU32_disk _ _ _ _ hg]
@@ -45,7 +46,7 @@ empty, slot `b+j` is empty too — except the last slot of the window, which the
 (still older) content. So relative age order is preserved, at most the archive in the last slot is
 dropped, and indices outside `[b, b+c)` are not touched. -/
 theorem C07_rotate_general (r : RollerCfg) (file : Path) (d : Disk) (x : Bytes)
-    (hg : r.base + r.count < U32_MOD) (hc : r.count ≠ 0)
+    (hg : r.base + r.count ≤ U32_MOD) (hc : r.count ≠ 0)
     (hinj : NamesInj r) (hfa : FileApart r file) (hx : d.get? file = some x) :
     ∃ d', rollU32 r file (fun _ => false) d = (.ok d', d') ∧
       slot r d' r.base = some (r.enc x) ∧
@@ -61,7 +62,7 @@ theorem C07_rotate_general (r : RollerCfg) (file : Path) (d : Disk) (x : Bytes)
 roll slot `b` holds the rolled content, slot `b+j+1` holds what slot `b+j` held (for `j+1 < c`),
 so nothing else is in the window, and the rolled file is gone. -/
 theorem C07_rotate_dense (r : RollerCfg) (file : Path) (d : Disk) (x : Bytes) (k : Nat)
-    (hg : r.base + r.count < U32_MOD) (hc : r.count ≠ 0)
+    (hg : r.base + r.count ≤ U32_MOD) (hc : r.count ≠ 0)
     (hinj : NamesInj r) (hfa : FileApart r file) (hx : d.get? file = some x)
     (_hk : k ≤ r.count)
     (hdense : ∀ j, j < k → (slot r d (r.base + j)).isSome)
@@ -89,7 +90,7 @@ theorem C07_rotate_dense (r : RollerCfg) (file : Path) (d : Disk) (x : Bytes) (k
 
 /-- One roll on a window described as a list (newest first). -/
 theorem C07_roll_window (r : RollerCfg) (file : Path) (d : Disk) (x : Bytes) (ws : List Bytes)
-    (hg : r.base + r.count < U32_MOD) (hc : r.count ≠ 0)
+    (hg : r.base + r.count ≤ U32_MOD) (hc : r.count ≠ 0)
     (hinj : NamesInj r) (hfa : FileApart r file) (hw : WindowIs r d ws) :
     WindowIs r (rollU32 r file (fun _ => false) (d.set file x)).2 ((r.enc x :: ws).take r.count) ∧
       (rollU32 r file (fun _ => false) (d.set file x)).2.get? file = none :=
@@ -100,7 +101,7 @@ window that holds `ws` (for the empty window `ws = []`), after rolling `x₁ …
 the rolled contents newest first followed by the old ones, cut at `count`:
 slot `b+j` = `x_{n-j}` for `j < min n c`, and from an empty window nothing else. -/
 theorem C07_n_rolls_window (r : RollerCfg) (file : Path)
-    (hg : r.base + r.count < U32_MOD) (hc : r.count ≠ 0)
+    (hg : r.base + r.count ≤ U32_MOD) (hc : r.count ≠ 0)
     (hinj : NamesInj r) (hfa : FileApart r file) (xs : List Bytes) :
     ∀ (d : Disk) (ws : List Bytes), WindowIs r d ws →
       WindowIs r (rollMany r file xs d) (((xs.reverse.map r.enc) ++ ws).take r.count) := by
@@ -119,7 +120,7 @@ theorem C07_n_rolls_window (r : RollerCfg) (file : Path)
 /-- index form: from an empty window, after rolling `x₁ … xₙ`, slot `b+j` holds `x_{n-j}`
 (`xs.reverse[j]`) for `j < min n c` and is empty for the other `j < c`; the rolled file is gone -/
 theorem C07_n_rolls (r : RollerCfg) (file : Path) (d : Disk) (xs : List Bytes)
-    (hg : r.base + r.count < U32_MOD) (hc : r.count ≠ 0)
+    (hg : r.base + r.count ≤ U32_MOD) (hc : r.count ≠ 0)
     (hinj : NamesInj r) (hfa : FileApart r file)
     (hempty : ∀ j, j < r.count → slot r d (r.base + j) = none) :
     ∀ j, j < r.count → slot r (rollMany r file xs d) (r.base + j) = (xs.reverse[j]?).map r.enc := by
@@ -130,7 +131,7 @@ theorem C07_n_rolls (r : RollerCfg) (file : Path) (d : Disk) (xs : List Bytes)
 
 /-- successive rolls never touch a path outside the window names and the log path -/
 theorem C07_n_rolls_frame (r : RollerCfg) (file : Path) (xs : List Bytes)
-    (hg : r.base + r.count < U32_MOD) (q : Path) (h1 : q ≠ file)
+    (hg : r.base + r.count ≤ U32_MOD) (q : Path) (h1 : q ≠ file)
     (h2 : ∀ i, r.base ≤ i → i < r.base + r.count → q ≠ r.nameOf i) :
     ∀ d, (rollMany r file xs d).get? q = d.get? q := by
   induction xs with
@@ -142,7 +143,7 @@ theorem C07_n_rolls_frame (r : RollerCfg) (file : Path) (xs : List Bytes)
 
 /-- after at least one roll the log file is gone from its path -/
 theorem C07_n_rolls_file_gone (r : RollerCfg) (file : Path) (xs : List Bytes) (x : Bytes)
-    (hg : r.base + r.count < U32_MOD) (hc : r.count ≠ 0)
+    (hg : r.base + r.count ≤ U32_MOD) (hc : r.count ≠ 0)
     (hinj : NamesInj r) (hfa : FileApart r file) (d : Disk) (ws : List Bytes)
     (hw : WindowIs r d ws) :
     (rollMany r file (xs ++ [x]) d).get? file = none := by
@@ -154,12 +155,12 @@ theorem C07_n_rolls_file_gone (r : RollerCfg) (file : Path) (xs : List Bytes) (x
 
 /-- A count of zero simply removes the rolled file: nothing else changes. -/
 theorem C07_count_zero (r : RollerCfg) (file : Path) (d : Disk) (x : Bytes)
-    (hc : r.count = 0) (hg : r.base < U32_MOD) (hx : d.get? file = some x) :
+    (hc : r.count = 0) (hx : d.get? file = some x) :
     rollU32 r file (fun _ => false) d = (.ok (d.erase file), d.erase file) ∧
       (d.erase file).get? file = none ∧ ∀ q, q ≠ file → (d.erase file).get? q = d.get? q := by
   refine ⟨?_, Disk.get?_erase_same _ _, fun q hq => Disk.get?_erase_ne _ hq⟩
-  rw [rollU32_guarded _ _ _ _ (by omega)]
-  simp [fixedWindowRoll, hc, hx]
+  rw [rollU32_count_zero _ _ _ _ hc]
+  simp [fixedWindowRoll, hc, hx, liftRoll]
 
 /-- The delete roller simply removes the rolled file: nothing else changes. -/
 theorem C07_delete_roller (file : Path) (d : Disk) (x : Bytes) (hx : d.get? file = some x) :
@@ -168,21 +169,30 @@ theorem C07_delete_roller (file : Path) (d : Disk) (x : Bytes) (hx : d.get? file
   refine ⟨?_, Disk.get?_erase_same _ _, fun q hq => Disk.get?_erase_ne _ hq⟩
   simp [deleteRoll, hx]
 
-/-- F11: outside the guard the roll panics before touching the disk (overflow checks on), for
-every non-zero count — including `base = 2^32-1, count = 1`, whose window is representable. -/
-theorem C07_overflow_panics (r : RollerCfg) (file : Path) (fault : Nat → Bool) (d : Disk)
-    (hc : r.count ≠ 0) (ho : U32_MOD ≤ r.base + r.count) :
-    (rollU32 r file fault d).1.isPanic = true ∧ (rollU32 r file fault d).2 = d := by
-  unfold rollU32
-  rw [if_pos ⟨hc, ho⟩]
-  exact ⟨rfl, rfl⟩
-
-/-- … and inside the guard it never panics, whatever fails. -/
+/-- Inside the guard — including the boundary `base + count = 2^32` — the roll never panics,
+whatever fails. -/
 theorem C07_no_panic (r : RollerCfg) (file : Path) (fault : Nat → Bool) (d : Disk)
-    (hg : r.base + r.count < U32_MOD) : (rollU32 r file fault d).1.isPanic = false := by
+    (hg : r.base + r.count ≤ U32_MOD) : (rollU32 r file fault d).1.isPanic = false := by
   rw [rollU32_guarded _ _ _ _ hg]
   rcases fixedWindowRoll r file fault d with ⟨res, d''⟩
   cases res <;> rfl
+
+/-- The builder accepts exactly the patterns with `{}` whose window is representable; an
+unrepresentable window (count ≠ 0, base + count > 2^32) is rejected with an error, so no roller
+exists outside the guard of the theorems above. -/
+theorem C07_unrepresentable_rejected (p : List Char) (base count : Nat) :
+    buildOk p base count = true ↔ hasHole p = true ∧ (count = 0 ∨ base + count ≤ U32_MOD) := by
+  simp [buildOk, representable]
+
+/-- F11, historical: before the fix the roll panicked (overflow checks on) as soon as
+`base + count ≥ 2^32`, for every non-zero count — including `base = 2^32-1, count = 1`, whose
+window is representable — before touching the disk. -/
+theorem C07_overflow_panics_unfixed (r : RollerCfg) (file : Path) (fault : Nat → Bool) (d : Disk)
+    (hc : r.count ≠ 0) (ho : U32_MOD ≤ r.base + r.count) :
+    (rollU32_unfixed r file fault d).1.isPanic = true ∧ (rollU32_unfixed r file fault d).2 = d := by
+  unfold rollU32_unfixed
+  rw [if_pos ⟨hc, ho⟩]
+  exact ⟨rfl, rfl⟩
 
 /-! ### non-vacuity (tests on samples, not proofs of the property) -/
 
@@ -220,9 +230,16 @@ example :
     (slot r4 d 0, slot r4 d 1, slot r4 d 2, slot r4 d 3) = (some [120], some [65], none, some [67]) := by
   decide
 
-/-- F11 witness: base = 2^32 - 1, count = 2 panics -/
-example : (rollU32 (mkRoller id id exPat 4294967295 2) exFile (fun _ => false) ⟨[(exFile, [1])]⟩).1.isPanic = true := by
-  decide
+/-- the boundary window base = 2^32 - 1, count = 1 works now: the file lands in slot 2^32 - 1 -/
+example :
+    let r := mkRoller id id exPat 4294967295 1
+    let d := (rollU32 r exFile (fun _ => false) ⟨[(exFile, [1])]⟩)
+    (d.1.isOk, slot r d.2 4294967295, d.2.get? exFile) = (true, some [1], none) := by decide
+
+/-- F11 witness (before the fix): the same window panicked; base = 2^32 - 1, count = 2 is rejected
+by the builder now -/
+example : (rollU32_unfixed (mkRoller id id exPat 4294967295 1) exFile (fun _ => false) ⟨[(exFile, [1])]⟩).1.isPanic = true
+    ∧ buildOk exPat 4294967295 2 = false := by decide
 end Examples
 
 end Log4rs.Roller
